@@ -45,7 +45,7 @@ def is_module_abort(msg):
     return 'expression simplifies to' in msg or 'failed to simplify' in msg
 
 
-def build(extra_mods=(), force_assumed=(), drop_ghost=(), drop_contract=(), external_items=()):
+def build(extra_mods=(), force_assumed=(), drop_ghost=(), drop_contract=(), external_items=(), external_fns=()):
     """Returns dict with text, registry (clauses), logs, assumed, fn line ranges."""
     by_mod, allc = load_contracts()
     # functions without a contract (new in this tree) that the verifier cannot take as they are: left unverified
@@ -64,6 +64,8 @@ def build(extra_mods=(), force_assumed=(), drop_ghost=(), drop_contract=(), exte
             c.requires, c.ensures, c.decreases, c.ret, c.closures = [], [], None, None, []
             c.consts = {}
             c.contract_dropped = True
+        if c.name in external_fns:
+            c.fully_external = True
     for c in allc:
         if c.name in force_assumed and not c.assumed:
             c.assumed = 'forced after a module-aborting failure in this function (contract assumed to examine the rest of its module)'
@@ -271,7 +273,7 @@ def module_item_at(text, line):
         if st <= off < en:
             nl = region.find('\n', j)
             first = region[j:nl if nl >= 0 else len(region)].rstrip()
-            if re.match(r'(pub(\([a-z]+\))?\s+)?(exec\s+)?(const|static)\s+\w+\s*:', first):
+            if re.match(r'(pub(\([a-z]+\))?\s+)?(exec\s+)?(const|static)\s+\w+\s*:', first) or re.match(r'(pub(\([a-z]+\))?\s+)?(struct|enum)\s+\w+', first):
                 return (mod_, first)
             return None
         pos = en
